@@ -81,6 +81,7 @@ fn forms() -> Vec<Form> {
     Form { name: "reference-types", place: Place::Leading, media: ALL, literal: false, build: |l, _, _| (format!("/// <reference types={l} />\n"), vec![("ts-reference-types".into(), None, false)]) },
     Form { name: "self-types", place: Place::Leading, media: JS, literal: false, build: |l, _, _| (format!("// @ts-self-types={l}\n"), vec![("self-types".into(), None, false)]) },
     Form { name: "jsx-import-source", place: Place::Leading, media: JSX, literal: false, build: |_, v, _| (format!("/** @jsxImportSource {v} */\n"), vec![("jsx-import-source:bare".into(), None, false)]) },
+    Form { name: "jsx-import-source-types", place: Place::Leading, media: JSX, literal: false, build: |_, v, _| (format!("/** @jsxImportSourceTypes {v} */\n"), vec![("jsx-import-source-types:bare".into(), None, false)]) },
     Form { name: "jsdoc-type-import", place: Place::Body, media: JS, literal: false, build: |l, _, n| (format!("/** @type {{import({l}).T}} */\nconst jd{n} = null;\n"), vec![("jsdoc".into(), None, false)]) },
     Form { name: "jsdoc-import-tag", place: Place::Body, media: JS, literal: false, build: |l, _, n| (format!("/** @import {{ T{n} }} from {l} */\nconst ji{n} = null;\n"), vec![("jsdoc".into(), None, false)]) },
     Form { name: "source-mapping-url", place: Place::Trailing, media: CODE, literal: false, build: |_, v, _| (format!("//# sourceMappingURL={v}"), vec![("source-map-url:bare".into(), None, false)]) },
@@ -242,6 +243,7 @@ pub fn gen_program(ch: &Ch, max_items: usize) -> GenProgram {
     let mut expected: Vec<Item> = vec![];
     let mut seen_self_types = false;
     let mut seen_jsx = false;
+    let mut seen_jsx_types = false;
     for (k, c) in ordered.iter().enumerate() {
       // leading comments must not be preceded by code; trivia that is itself
       // a comment is fine
@@ -258,11 +260,17 @@ pub fn gen_program(ch: &Ch, max_items: usize) -> GenProgram {
           }
           seen_self_types = true;
         }
-        if cat.starts_with("jsx-import-source") {
+        if cat == "jsx-import-source:bare" {
           if seen_jsx {
             continue;
           }
           seen_jsx = true;
+        }
+        if cat == "jsx-import-source-types:bare" {
+          if seen_jsx_types {
+            continue;
+          }
+          seen_jsx_types = true;
         }
         let (needle, value) = if cat.ends_with(":bare") { (c.value.clone(), c.value.clone()) } else { (c.lit.clone(), c.value.clone()) };
         let lo = base + t.find(&needle).expect("literal present in statement");
@@ -364,8 +372,40 @@ fn body(max_items: usize) -> impl Fn(&Ch) -> Run + Sync + Send {
       let loader = ScriptedLoader::new(sched);
       loader.add(spec.as_str(), Entry::bytes(full.as_bytes()));
       let mut g = deno_graph::ModuleGraph::new(deno_graph::GraphKind::All);
-      let _ = build_graph(&mut g, vec![spec.clone()], &loader, BuildCfg::default(), ch);
+      // non-default: a resolver with a default JSX import source and types source
+      let resolver_defaults = ch.choose("resolver_with_default_jsx_import_source", 2) == 1;
+      let resolver = MapResolver {
+        jsx_import_source: Some("https://x/jsxlib".into()),
+        jsx_import_source_types: Some("https://x/jsxtypes".into()),
+        ..Default::default()
+      };
+      let _ = build_graph(
+        &mut g,
+        vec![spec.clone()],
+        &loader,
+        BuildCfg {
+          resolver: if resolver_defaults { Some(&resolver) } else { None },
+          ..Default::default()
+        },
+        ch,
+      );
       if let Some(deno_graph::Module::Js(js)) = g.get(&spec) {
+        // a JSX module's types pragma is a dependency of the graph whenever the
+        // module has an import source (its own pragma or the resolver's default)
+        if let Some(tp) = expected.iter().find(|e| e.cat == "jsx-import-source-types:bare")
+          && (resolver_defaults || expected.iter().any(|e| e.cat == "jsx-import-source:bare"))
+        {
+          let found = js.dependencies.values().any(|d| {
+            d.maybe_type.maybe_range().is_some_and(|r| offset_of(&text, r.range.start) == Some(tp.lo) && offset_of(&text, r.range.end) == Some(tp.hi))
+          });
+          if !found {
+            run.violate(
+              "graph-omits-dependency@jsx-import-source-types",
+              format!("the @jsxImportSourceTypes pragma {:?} at bytes {}..{} is not the type resolution of any dependency of the module (resolver defaults: {resolver_defaults})", tp.value, tp.lo, tp.hi),
+              case(json!({"dependencies": js.dependencies.iter().map(|(k, d)| (k.clone(), crate::obs::dep_json(d))).collect::<serde_json::Map<_, _>>()})),
+            );
+          }
+        }
         // all ranges a lookup may return
         let mut ranges: Vec<(String, PositionRange)> = vec![];
         for (k, d) in &js.dependencies {
